@@ -1234,7 +1234,14 @@ func (g *Gen) multiOutCase(i int) Group {
 		if life == Singleton && !replaced && g.p(0.5) {
 			cl = Singleton
 		}
-		c := &Reg{ID: g.nextRid, Life: cl, Form: Form{Kind: "ctor", InObj: true, Params: ps, Rets: []int{tys[6]}}, Dyn: []int{tys[6]}, CFail: []bool{false}, Name: 9}
+		// positional parameters where no tag is needed: an output left nil arrives as the zero value there too
+		inobj := g.p(0.5)
+		for _, prm := range ps {
+			if prm.Dep.Name != 0 || prm.Dep.Group != 0 || prm.Dep.Opt {
+				inobj = true
+			}
+		}
+		c := &Reg{ID: g.nextRid, Life: cl, Form: Form{Kind: "ctor", InObj: inobj, Params: ps, Rets: []int{tys[6]}}, Dyn: []int{tys[6]}, CFail: []bool{false}, Name: 9}
 		g.nextRid++
 		ops = append(ops, Op{Kind: "add", Reg: c})
 		outs = append(outs, ident{tys[6], 9, 0})
